@@ -295,7 +295,7 @@ def run(tier, seed, t0):
     jobs += [lambda: ob_mont_mul(c11.CRATE, "fn64::mont_mul", c11.N2, "n"),
              lambda: ob_binop_mod(c11.CRATE, "fn_add", c11.N2, lambda a, b: a + b, "fn_add"), lambda: ob_binop_mod(c11.CRATE, "fn_sub", c11.N2, lambda a, b: a - b, "fn_sub"),
              lambda: ob_binop_mod(c11.CRATE, "fn_reduce", c11.N2, lambda a: a, "fn_reduce", 1, pre="any"),
-             lambda: c11.ob_pow("fn_pow", "SM2_N_MINUS_TWO", c11.N2 - 2, "(n-2)")]
+             lambda: c11.ob_pow("fn_pow", "SM2_N_MINUS_TWO", c11.N2 - 2, "(n-2)")] + c11.mont_form_jobs()[:4]
     import c11_l4
     jobs = c11_l4.jobs(tier) + jobs      # [k]G and [t]P for every scalar (anchored in this property too)
     res = run_parallel(jobs, nproc=14)
